@@ -312,6 +312,15 @@ def generate(rng, tier):
                     d = INTMAX if (dim == max(n - 2, 0) and rng.random() < 0.15) else dim
                     add(dict(kind="dense", n=n, keys=keys, thr=thr, dim=d, mod=mod, sq=0, shuffle=rng.randrange(1, 10**6),
                              thrmax=(thr is None and rng.random() < 0.4)), "dense")
+    # ---- more points, many ties, dimension 3 and 4: columns of dimension >= 2 that are reduced explicitly and whose pivots
+    #      have cofacets to be reduced in the next dimension (compared with the second oracle: too many simplices for the certified one)
+    for t in range(800 if thorough else 160):
+        n = rng.choice([6, 7, 8, 9, 10, 11, 12, 13])
+        R = rng.choice([2, 3, 3, 4, 5, 8])
+        keys = [rng.randint(1, R) for _ in tri(n)]
+        thr = None if rng.random() < 0.6 else rng.choice(sorted(set(keys)))
+        add(dict(kind="dense", n=n, keys=keys, thr=thr, dim=rng.choice([3, 3, 4, 5]), mod=rng.choice([2, 2, 3, 3, 5, 7, 251]), sq=0, shuffle=rng.randrange(1, 10**6),
+                 forms=rng.sample(["lower", "lowerdirect", "upper", "full", "sparse", "sparsector"], 2)), "dense-ties-highdim")
     # ---- Euclidean clouds with integer coordinates
     npnt = 50 if thorough else 24
     for t in range(npnt):
